@@ -17,6 +17,24 @@ TABLE = {
   "C14": ("Lean 4 theorems about phase selectors that are re-translated from the Python source on every run (mini-Python -> Lean translator), plus an exact list model of the six filters; differential runs on threshold-dense integer grids",
           "Proved for all integer budgets/counts (incl. budget < failures, zero open suggestions): no selector divides by zero, the generated multi-metric selector equals (rfl) the documented stage table, stages/search/Parzen phases never move backwards as observations arrive, the fraction handed on lies in [0,1], weights in [0.1,0.9] summing to 1, epsilon in [0.1,0.9], 0<gamma<1; filters: equal lengths, right columns, violators dropped (GP) or overwritten by the lie (Parzen). Selectors are regenerated from source so the theorems are re-checked against the current code.",
           "Not proved: agreement of float division with exact rationals at thresholds (argued for denominators < 1e14); Halton draw is an oracle; View wiring is exercised by C01/C06.", "3/C14"),
+  "C13": ("Lean 4 theorems over an exact model (any linear order / Rat) of the frontier mask loop as written, the epsilon value and the minimum-success repair; exact-rational correspondence",
+          "Proved for all matrices (any n, m, ties, duplicates): the incremental mask loop equals the non-dominated set (partition, order, ties kept); the sorted frontier is the minimisation frontier; without thresholds the value is the convex combination at the two column arg-mins; with any thresholds (incl. NaN and every fall-back) the value stays in the column range; repair count = max(before, min(5,n)), un-fails only the lowest failures. Tied by the generated constant 5 and exact-rational differential runs with brute-force direct oracles.",
+          "Not modelled: IEEE rounding of (1-eps)a+eps*b (16 ulp), NaN/inf metric values; tie-breaking among equal values accepted liberally; empty input is a precondition.", "3/C13"),
+  "C16": ("Lean 4 theorems over an exact Rat model of form_model / the search split plus an Arith model of densities, ratio and bandwidths (proved on Real, run on Float); correspondence through the public constructor and both endpoint builders",
+          "Proved for all observation lists, tie patterns, gamma, forget factors, kernels with 0<=k(z,x)<=k(x,x), evaluation points and lie sequences: split sizes max(floor(gamma*m),3), order, permutation, error-iff; value multisets independent of tie order; densities are non-negative kernel means with the floor; ratio formula and range (0,1/gamma]; a lie never lowers the density of its set at its location; bandwidths valid and positive in both branches; search split rule.",
+          "Not modelled: IEEE rounding (conditioning-aware tolerances); int(gamma*n) vs exact floor accepted either way within 4*2^-53 of an integer; search with no violators gives gamma=0 (outside the quantifier).", "3/C16"),
+  "C03": ("Lean 4 proof over a polymorphic Arith kernel model (Real instance for theorems, Float instance executed bit-exactly against the library)",
+          "Proved over Real for all dimensions, hyperparameters and points: closed forms, agreement of the three r^2 formulas, k(x,x)=alpha, symmetry, translation invariance, 0<phi<=1, antitone in r, entry points agree, noise on the diagonal only, multitask = alpha*physical*task, SE Gram PSD (power series + Schur products), PSD closed under Hadamard/non-negative diagonal, validHyper iff all finite and > 0 (incl. multitask alpha), set/get identity. Tied by running the same definitions on Float against covariance/build_kernel_matrix/hyperparameters/constructor errors for 4 radial kernels and 9 multitask pairings.",
+          "Not proved: PSD of the three Matern profiles (Schoenberg/Bochner; exact LDL^T certificate is a labelled test). IEEE rounding and overflow beyond 1e150 not modelled.", "3/C03"),
+  "C09": ("Lean 4 proof on an exact Rat model (shared domain model Model/Domain.lean) + differential correspondence (equality off ties, membership in a tie-liberal spec on ties) + direct oracles",
+          "Proved for all domains, points and RNG outcomes: decode(encode x)=x (exact draw condition; and under arg-max), decode of any relaxed-polytope point is admissible (doubles unchanged, ints half-even nearest within integral bounds, grid nearest, categorical in elements, constraints preserved), int-feasible snap returns only feasible floor/ceil neighbours and drops nothing when each row has one, arg-max rounding, length-scale round trips, task snap nearest, lattice neighbours stay in the box.",
+          "Not modelled: IEEE rounding of |x-q| (elements within 1+2^-51 of the minimal distance accepted as nearest); the sampling distribution of the temperature draw; aliasing/in-place mutation.", "3/C09"),
+  "C15": ("Lean 4 invariants by induction over arbitrary operation lists (HistoricalData/GP, GP sum with memo caches, Parzen lies, constant-liar and search loops) + operation sequences replayed on the real objects + class-level recorders and deep request snapshots around endpoints",
+          "Proved for every interleaving: equal lengths, lies last in order with the lie noise and the model's worst value, every GP-sum accessor returns the combination of the CURRENT component data (cache coherence invariant), Parzen points = base + current lies under append/clear/stash/recover, recover(stash)=id, constant-liar pick i sees lies at exactly picks 0..i-1, search picks become repulsors and the caller's function is restored. Tied by replaying random op sequences on GaussianProcess, GaussianProcessSum, SigOptParzenEstimator and by recording the real loops/endpoints.",
+          "Python aliasing has no model counterpart: immutability is observed by before/after snapshots only (tag excluded).", "3/C15"),
+  "C20": ("Lean 4 theorems over an exact model of JSON-Schema keyword semantics plus the process_error decision table; differential runs against validate and jsonschema",
+          "Proved for all JSON values and schemas over the translated keywords plus const/multipleOf/uniqueItems/not: silent iff conforms; every reportable error is a genuinely failing keyword; translation total into the five library classes; message never empty; required/additionalProperties/type errors expose key, value and type; oneOf/anyOf descent terminates. Tied by exact comparison silent<->conforms and membership of (class, exposed attributes) in the model's admissible set.",
+          "Not modelled: which simultaneous error best_match picks (membership), invalid_key for non-identifier keys, message text, regexes outside a four-pattern family, float multipleOf, $ref/boolean/malformed schemas. Known findings F9, F11 (third-party) are printed, not alarms.", "3/C20"),
 }
 
 
